@@ -15,7 +15,7 @@ def run(tier, seed):
         for k in range(2 if tier == "quick" else 6):
             cases.append(([exe, "crafted", str(seed * 10 + k)], "%s/crafted/%d" % (fl, k)))
         nrand = 14 if tier == "quick" else 48
-        per = 100000 if tier == "quick" else 400000
+        per = 100000 if tier == "quick" else 2000000
         for k in range(nrand):
             cases.append(([exe, "random", str(per), str(seed * 1000 + k)], "%s/random/%d" % (fl, k)))
     for res in vlib.run_cases(cases, parallel=16, timeout=900):
